@@ -73,6 +73,23 @@ def find_function(qual):
     return node, mod, cls, h, (node.lineno, node.end_lineno)
 
 
+def load_opsets():
+    """operator symbol sets, read from dd/_abc.py with ast (never imported)"""
+    tree, src, _ = module_ast('dd._abc')
+    lits = {}
+    for n in tree.body:
+        if isinstance(n, ast.AnnAssign) and isinstance(n.target, ast.Name) and n.value is not None:
+            v = n.value
+            if isinstance(v, ast.Subscript) and ast.unparse(v.value).endswith('Literal'):
+                elts = v.slice.elts if isinstance(v.slice, ast.Tuple) else [v.slice]
+                if all(isinstance(x, ast.Constant) and isinstance(x.value, str) for x in elts):
+                    lits[n.target.id] = [x.value for x in elts]
+    out = dict(unary=set(lits['_UnaryOperatorSymbol']), binary=set(lits['_BinaryOperatorSymbol']),
+               ternary=set(lits['_TernaryOperatorSymbol']))
+    out['all'] = out['unary'] | out['binary'] | out['ternary']
+    return out
+
+
 def strip_docstring(body):
     if body and isinstance(body[0], ast.Expr) and isinstance(body[0].value, ast.Constant) and isinstance(body[0].value.value, str):
         return body[1:]
@@ -109,8 +126,10 @@ def make_arg(name, kind):
         k = kind[4:]
         ks = {'int': I, 'name': M.Name}[k]
         return SetV(z3.Array(name + '_has', ks, B), k)
-    if kind == 'exc':
-        return ObjV('excslot', {})
+    if kind == 'opaque':
+        return ObjV('opaque')
+    if kind.startswith('callable:'):
+        return ObjV('callable', dict(qual=kind[9:]))
     raise KeyError(kind)
 
 
@@ -133,6 +152,10 @@ def ret_z(c, v, ex, p):
         if not isinstance(v, NameV):
             raise Unsupported('return kind')
         return v.z
+    if c.ret.startswith(('dict:', 'set:', 'list:')):
+        if not isinstance(v, (DictV, SetV, ListV)):
+            raise Unsupported('return kind')
+        return v
     raise Unsupported(f'ret {c.ret}')
 
 
@@ -160,12 +183,21 @@ def generate(target, registry):
                 v.key = alias
             if v.key not in mgrs:
                 mgrs[v.key] = State(v.key)
-    if fn.args.vararg or fn.args.kwarg:
-        if not target.get('allow_varargs'):
-            raise Unsupported('*args/**kwargs')
+    if fn.args.vararg:
+        n = fn.args.vararg.arg
+        kind = cparams.get(n)
+        if kind is None:
+            raise Unsupported('*args without a kind in the contract')
+        env[n] = make_arg(n, kind)
+    if fn.args.kwarg:
+        n = fn.args.kwarg.arg
+        if cparams.get(n) != 'opaque':
+            raise Unsupported('**kwargs')
+        env[n] = ObjV('opaque')
     entry_mgrs = {k: s.copy() for k, s in mgrs.items()}
     entry_env = {k: (v.copy() if isinstance(v, (DictV, SetV)) else v) for k, v in env.items()}
     p0 = Path(mgrs, env, [])
+    ex.entry_mgrs = entry_mgrs
     zargs = ex.z_args(c, {n: env[n] for n, _ in c.params if n in env}, p0)
     mkey = env[c.mgr].key if c.mgr in env and isinstance(env[c.mgr], MgrV) else None
     S0 = entry_mgrs[mkey] if mkey else None
@@ -252,23 +284,88 @@ def _solve(job):
         return name, 'error', 'z3-api', time.time() - t0, repr(e)[:300]
 
 
-def discharge(obls, timeout=TIMEOUT_MS, pool=None):
-    """obls: list of (name, hyps, goal, meta). Returns list of dict(name, result, backend, secs)."""
-    jobs, out = [], []
-    for name, hyps, goal, meta in obls:
+def split_goal(hyps, goal, depth=0):
+    """Sound and complete case split of one obligation into simpler ones (all must be discharged):
+    conjunctions are split, a top-level universal quantifier is skolemised, an implication's antecedent becomes a
+    hypothesis, and membership in a container after stores (`Store(h, k, True)[x]`) is split into x == k / h[x]."""
+    g = goal
+    if z3.is_and(g) and depth < 3 and g.num_args() <= 8:
+        out = []
+        for a in g.children():
+            out += split_goal(hyps, a, depth + 1)
+        return out
+    if z3.is_quantifier(g) and g.is_forall():
+        consts = [fresh(g.var_name(i).replace('!', '_') + '_sk', g.var_sort(i)) for i in range(g.num_vars())]
+        body = z3.substitute_vars(g.body(), *reversed(consts))
+        return split_goal(hyps, body, depth + 1)
+    if z3.is_implies(g):
+        ante, cons = g.arg(0), g.arg(1)
+        cases = split_membership(ante)
+        out = []
+        for cs in cases:
+            out += split_goal(list(hyps) + cs, cons, depth + 1) if depth < 6 else [(list(hyps) + cs, cons)]
+        return out
+    return [(list(hyps), g)]
+
+
+def split_membership(ante):
+    """[[facts...], ...]: disjoint cases covering `ante`"""
+    if z3.is_and(ante):
+        # split only the first conjunct that is a stored-membership test
+        kids = ante.children()
+        for i, kd in enumerate(kids):
+            cs = split_membership(kd)
+            if len(cs) > 1:
+                rest = kids[:i] + kids[i + 1:]
+                return [c + rest for c in cs]
+        return [[ante]]
+    if z3.is_select(ante) and z3.is_store(ante.arg(0)):
+        st, x = ante.arg(0), ante.arg(1)
+        base, k, v = st.arg(0), st.arg(1), st.arg(2)
+        if z3.is_true(v):
+            rest = split_membership(z3.Select(base, x))
+            return [[x == k]] + [[x != k] + r for r in rest]
+        if z3.is_false(v):
+            rest = split_membership(z3.Select(base, x))
+            return [[x != k] + r for r in rest]
+    return [[ante]]
+
+
+def discharge(obls, timeout=TIMEOUT_MS, pool=None, split=True):
+    """obls: list of (name, hyps, goal, meta). Returns list of dict(name, result, backend, secs), one per obligation;
+    an obligation split into parts is discharged iff every part is."""
+    jobs, out, parts_of = [], {}, {}
+    order = []
+    for idx, (name, hyps, goal, meta) in enumerate(obls):
+        order.append(idx)
         if meta.get('trivial'):
-            out.append(dict(name=name, result='unsat', backend='trivial', secs=0.0))
+            out[idx] = dict(name=name, result='unsat', backend='trivial', secs=0.0, parts=0)
             continue
-        jobs.append((name, to_smt2(hyps, goal), timeout))
+        parts = split_goal(hyps, goal) if split else [(hyps, goal)]
+        parts_of[idx] = len(parts)
+        out[idx] = dict(name=name, result='unsat', backend=set(), secs=0.0, parts=len(parts), reason='')
+        for hp, gp in parts:
+            jobs.append(((idx, name), to_smt2(hp, gp), timeout))
     own = pool is None
     pool = pool or cf.ProcessPoolExecutor(max_workers=NPROC)
     try:
-        for name, res, back, secs, reason in pool.map(_solve, jobs, chunksize=1):
-            out.append(dict(name=name, result=res, backend=back, secs=round(secs, 3), reason=reason))
+        for (idx, name), res, back, secs, reason in pool.map(_solve, jobs, chunksize=1):
+            o = out[idx]
+            o['secs'] = round(o['secs'] + secs, 3)
+            o['backend'].add(back)
+            if res != 'unsat':
+                o['result'] = res if o['result'] == 'unsat' else o['result']
+                o['reason'] = reason
     finally:
         if own:
             pool.shutdown()
-    return out
+    res = []
+    for idx in order:
+        o = out[idx]
+        if isinstance(o['backend'], set):
+            o['backend'] = '+'.join(sorted(o['backend'])) or 'z3-api'
+        res.append(o)
+    return res
 
 
 def reachable_paths(paths, timeout=3000):
